@@ -39,6 +39,9 @@ struct Case {
     class: &'static str,
     /// the mutated reply is followed by a well-formed reply to the same request
     late_reply: bool,
+    /// the connection stays open after the mutated message (a complete frame) and the bystander's
+    /// reply: nothing but the message itself can end the wait of the call it answers
+    open_wire: bool,
 }
 
 #[derive(Debug)]
@@ -132,11 +135,11 @@ fn cases(thorough: bool) -> Vec<Case> {
         let bytes = text.as_bytes();
         let stride = 1;
         for cut in (0..bytes.len()).step_by(stride) {
-            out.push(Case { via: seed.via, bytes: bytes[..cut].to_vec(), desc: format!("{}: truncated at byte {cut}", seed.name), class: "truncation", late_reply: false });
+            out.push(Case { via: seed.via, bytes: bytes[..cut].to_vec(), desc: format!("{}: truncated at byte {cut}", seed.name), class: "truncation", late_reply: false, open_wire: false });
             // truncated inside, but still terminated by the delimiter (what a framing layer would hand over)
             let mut b = bytes[..cut.min(bytes.len() - MARKER.len())].to_vec();
             b.extend_from_slice(MARKER.as_bytes());
-            out.push(Case { via: seed.via, bytes: b, desc: format!("{}: cut at byte {cut} then delimiter", seed.name), class: "truncation", late_reply: false });
+            out.push(Case { via: seed.via, bytes: b, desc: format!("{}: cut at byte {cut} then delimiter", seed.name), class: "truncation", late_reply: false, open_wire: false });
         }
         let stride = if thorough || bytes.len() < 700 { 1 } else { 3 };
         for pos in (0..bytes.len() - MARKER.len()).step_by(stride) {
@@ -146,7 +149,7 @@ fn cases(thorough: bool) -> Vec<Case> {
                 }
                 let mut b = bytes.to_vec();
                 b[pos] = s;
-                out.push(Case { via: seed.via, bytes: b, desc: format!("{}: byte {pos} := {s:#04x}", seed.name), class: "byte-substitution", late_reply: false });
+                out.push(Case { via: seed.via, bytes: b, desc: format!("{}: byte {pos} := {s:#04x}", seed.name), class: "byte-substitution", late_reply: false, open_wire: false });
             }
         }
         if thorough && bytes.len() < 260 {
@@ -157,14 +160,14 @@ fn cases(thorough: bool) -> Vec<Case> {
                         let mut b = bytes.to_vec();
                         b[p1] = s1;
                         b[p2] = s2;
-                        out.push(Case { via: seed.via, bytes: b, desc: format!("{}: bytes {p1},{p2} := {s1:#04x},{s2:#04x}", seed.name), class: "byte-substitution", late_reply: false });
+                        out.push(Case { via: seed.via, bytes: b, desc: format!("{}: bytes {p1},{p2} := {s1:#04x},{s2:#04x}", seed.name), class: "byte-substitution", late_reply: false, open_wire: false });
                     }
                 }
             }
         }
         for (tree, what) in structural(&root) {
             let t = format!("{}{MARKER}", serialize(&tree, &[], seed.expanded));
-            out.push(Case { via: seed.via, bytes: t.into_bytes(), desc: format!("{}: {what}", seed.name), class: "structural", late_reply: false });
+            out.push(Case { via: seed.via, bytes: t.into_bytes(), desc: format!("{}: {what}", seed.name), class: "structural", late_reply: false, open_wire: false });
         }
     }
     // splices: every prefix of one seed with every suffix of another, cut at element boundaries
@@ -179,32 +182,38 @@ fn cases(thorough: bool) -> Vec<Case> {
             for ca in bounds(a).into_iter().step_by(step) {
                 for cb in bounds(b).into_iter().step_by(step * 2) {
                     let spliced = format!("{}{}", &a[..ca], &b[cb..]);
-                    out.push(Case { via: *via, bytes: spliced.into_bytes(), desc: format!("splice {na}[..{ca}] + {nb}[{cb}..]"), class: "splice", late_reply: false });
+                    out.push(Case { via: *via, bytes: spliced.into_bytes(), desc: format!("splice {na}[..{ca}] + {nb}[{cb}..]"), class: "splice", late_reply: false, open_wire: false });
                 }
             }
         }
     }
     // every reply-directed case once more, followed by a late well-formed reply to the same request
+    let open: Vec<Case> = out
+        .iter()
+        .filter(|c| matches!(c.via, Via::Lock | Via::Get | Via::Bare | Via::Load) && c.class != "splice" && c.bytes.ends_with(MARKER.as_bytes()))
+        .map(|c| Case { open_wire: true, desc: format!("{} (connection stays open)", c.desc), ..c.clone() })
+        .collect();
     let late: Vec<Case> = out.iter().filter(|c| matches!(c.via, Via::Lock | Via::Get | Via::Bare | Via::Load) && c.class != "splice").map(|c| Case { late_reply: true, desc: format!("{} (+ late valid reply)", c.desc), ..c.clone() }).collect();
     out.extend(late);
+    out.extend(open);
     // a filter expression with deeply nested parentheses in the annotation of a running-config statement
     // (a 60-byte comment): the candidate reader hands it to the RPSL parser
     for depth in [4usize, 8, 14, 22] {
         let expr = format!("{}AS-FOO{}", "(".repeat(depth), ")".repeat(depth));
         let running = crate::junos::render_running(&[crate::junos::managed_stmt("fltr-foo", &expr)], "1");
-        out.push(Case { via: Via::Candidates, bytes: format!("{running}{MARKER}").into_bytes(), desc: format!("config:running: annotation with {depth} nested parentheses"), class: "nested-expression", late_reply: false });
+        out.push(Case { via: Via::Candidates, bytes: format!("{running}{MARKER}").into_bytes(), desc: format!("config:running: annotation with {depth} nested parentheses"), class: "nested-expression", late_reply: false, open_wire: false });
     }
     // absurd shapes
     for via in [Via::Hello, Via::Lock, Via::Installed] {
         let deep = format!("{}{}{MARKER}", "<a>".repeat(20_000), "</a>".repeat(20_000));
-        out.push(Case { via, bytes: deep.into_bytes(), desc: "20000 nested elements".into(), class: "absurd", late_reply: false });
+        out.push(Case { via, bytes: deep.into_bytes(), desc: "20000 nested elements".into(), class: "absurd", late_reply: false, open_wire: false });
         let long = format!("<rpc-reply message-id=\"1\" xmlns=\"{BASE_NS}\"><ok/>{}</rpc-reply>{MARKER}", "<!-- x -->".repeat(50_000));
-        out.push(Case { via, bytes: long.into_bytes(), desc: "50000 comments".into(), class: "absurd", late_reply: false });
-        out.push(Case { via, bytes: vec![0xff; 4096], desc: "4 KiB of 0xff".into(), class: "absurd", late_reply: false });
-        out.push(Case { via, bytes: MARKER.as_bytes().to_vec(), desc: "delimiter only".into(), class: "absurd", late_reply: false });
-        out.push(Case { via, bytes: Vec::new(), desc: "empty message".into(), class: "absurd", late_reply: false });
+        out.push(Case { via, bytes: long.into_bytes(), desc: "50000 comments".into(), class: "absurd", late_reply: false, open_wire: false });
+        out.push(Case { via, bytes: vec![0xff; 4096], desc: "4 KiB of 0xff".into(), class: "absurd", late_reply: false, open_wire: false });
+        out.push(Case { via, bytes: MARKER.as_bytes().to_vec(), desc: "delimiter only".into(), class: "absurd", late_reply: false, open_wire: false });
+        out.push(Case { via, bytes: Vec::new(), desc: "empty message".into(), class: "absurd", late_reply: false, open_wire: false });
         let attrs: String = (0..5000).map(|i| format!(" a{i}=\"v\"")).collect();
-        out.push(Case { via, bytes: format!("<rpc-reply{attrs} message-id=\"1\" xmlns=\"{BASE_NS}\"><ok/></rpc-reply>{MARKER}").into_bytes(), desc: "5000 attributes".into(), class: "absurd", late_reply: false });
+        out.push(Case { via, bytes: format!("<rpc-reply{attrs} message-id=\"1\" xmlns=\"{BASE_NS}\"><ok/></rpc-reply>{MARKER}").into_bytes(), desc: "5000 attributes".into(), class: "absurd", late_reply: false, open_wire: false });
     }
     out
 }
@@ -279,7 +288,9 @@ fn run_case(case: &Case) -> Verdict {
                 env.wire.deliver(format!("<rpc-reply message-id=\"{id1}\" xmlns=\"{BASE_NS}\"><ok/></rpc-reply>{MARKER}"));
             }
             env.wire.deliver(bystander_reply(&id2));
-            env.wire.lock().closed = true;
+            if !case.open_wire {
+                env.wire.lock().closed = true;
+            }
             let r1 = drive(fut1, 1_000_000);
             if r1.is_none() {
                 return Verdict::Stalled("the future of the request that received the mutated reply never resolved".into());
